@@ -10,6 +10,7 @@ import hashlib
 
 HERE = os.path.dirname(os.path.abspath(__file__))
 VERIF = os.path.dirname(HERE)
+OUT = os.environ.get('VERIF_OUT') or VERIF      # evidence / replays / caches of self-test runs go elsewhere
 
 GLOBAL_ASSUMPTIONS = [
     "CPython 3.12 executes the concrete part of every path; the AST rewrite of pydv/instr.py preserves semantics (round-trip self check on every load + the repository's own suite run on the instrumented modules; not proved)",
@@ -83,7 +84,7 @@ class Run:
         return None
 
     def finish(self, evidence_path=None):
-        evidence_path = evidence_path or os.path.join(VERIF, 'evidence', f'{self.prop}.json')
+        evidence_path = evidence_path or os.path.join(OUT, 'evidence', f'{self.prop}.json')
         os.makedirs(os.path.dirname(evidence_path), exist_ok=True)
         violations = [o for o in self.obs if o.status == 'violated']
         undecided = [o for o in self.obs if o.status == 'undecided']
@@ -164,7 +165,7 @@ class Run:
 
 def write_replay(prop, oid, body, header=None):
     """body: python source of a standalone script that exits 1 iff the violation shows on the un-instrumented library"""
-    d = os.path.join(VERIF, 'replays', prop)
+    d = os.path.join(OUT, 'replays', prop)
     os.makedirs(d, exist_ok=True)
     h = hashlib.sha1((oid + body).encode()).hexdigest()[:10]
     safe = ''.join(c if c.isalnum() or c in '-_.' else '_' for c in oid)[:80]
@@ -176,7 +177,8 @@ def write_replay(prop, oid, body, header=None):
     return path
 
 
-def run_replay(path, root='/repo', timeout=120):
+def run_replay(path, root=None, timeout=120):
+    root = root or os.environ.get('VERIF_REPO', '/repo')
     import subprocess
     env = dict(os.environ, MUSICXML_ROOT=root)
     env.pop('PYTHONPATH', None)
@@ -190,7 +192,7 @@ def run_replay(path, root='/repo', timeout=120):
 REPLAY_CAP = 48
 
 
-def replay_many(prop, items, root='/repo', workers=16, cap=None):
+def replay_many(prop, items, root=None, workers=16, cap=None):
     """items: list of (oid, source, header) -> {oid: (path, rc, output)}; replays run in parallel subprocesses.
     At most `cap` replays are executed per run (the first ones in obligation order); the remaining violations are still
     reported, with their replay file written but not executed."""
